@@ -322,6 +322,7 @@ structure DState where
   tables : Option NSG.Defender.Tables := none
   settings : Option NSG.Coord.Settings := none
   cst : NSG.Coord.St := NSG.Coord.init
+  saved : NSG.Coord.St := NSG.Coord.init
   seen : List Nat := []
 
 def handle (st : DState) (j : Json) : R (DState × Json) := do
@@ -415,6 +416,8 @@ def handle (st : DState) (j : Json) : R (DState × Json) := do
     let g ← jgoal (← jfield j "goal")
     let v ← jview (← jfield j "view")
     return (st, Json.mkObj [("goal", NSG.Coord.goalCheck g v)])
+  | "snapshot" => return ({ st with saved := st.cst }, Json.mkObj [("ok", true)])
+  | "restore" => return ({ st with cst := st.saved }, Json.mkObj [("ok", true)])
   | "files" =>
     return (st, Json.mkObj [("files", olist (fun (f : String × NSG.Coord.Role × View × List NSG.Coord.TStep) =>
       Json.mkObj [("name", f.1), ("role", orole f.2.1), ("traj", otraj f.2.2)]) st.cst.files)])
